@@ -19,7 +19,7 @@ Import ListNotations.
 From Flocq Require Import Core.Core IEEE754.BinarySingleNaN IEEE754.Binary IEEE754.Bits.
 Require Import Selen.Model.Prelude Selen.Model.Dom.
 Require Import Selen.Model.B64 Selen.Model.FloatInterval Selen.Model.CtxFloat Selen.Model.FloatStore Selen.Model.FloatProps Selen.Model.FloatSearch Selen.Model.FloatDispatch.
-Require Import Selen.Proofs.B64Facts Selen.Proofs.FloatIntervalProofs Selen.Proofs.FloatPropsProofs Selen.Proofs.FloatArithProofs.
+Require Import Selen.Proofs.B64Facts Selen.Proofs.FloatIntervalProofs Selen.Proofs.FloatPropsProofs Selen.Proofs.FloatArithProofs Selen.Proofs.FloatMulProofs.
 
 (* ---------------------------------------------------------------- mixed_ints_exact *)
 (* For every mode (solve / minimize / maximize), every fuel, every model built from the propagator vocabulary of
@@ -69,6 +69,39 @@ Print Assumptions float_values_in_bounds.
 Theorem float_add_ints_only_shrink : forall x y s c c', prune_fadd x y s c = Some c' -> store_ile (fst c') (fst c).
 Proof. exact (fun x y s => prune_fadd_isafe x y s). Qed.
 Print Assumptions float_add_ints_only_shrink.
+
+(* ---------------------------------------------------------------- Mul on float and mixed operands *)
+(* Model: Model/FloatProps.v prune_fmul (props/mul.rs:18-95 with Val::{mul, div, safe_div, is_safe_divisor,
+   range_contains_unsafe_divisor} of variables/core.rs), tied bit for bit by family fprop_exact (kind `mul`).  mk_fmul belongs to
+   fvocab, so mixed_ints_exact covers models that contain it.  Proved: integers only shrink; the back-propagation block
+   x = s / y is inert and cannot fail whenever y's box contains or touches zero (the divisor guard), integer guard exact;
+   a float box strictly outside [-EPSILON, EPSILON] is a divisor range.  NOT proved: the forward product bounds and the quotient
+   bounds are outward-safe within tolerance (no RN-level error analysis of the four corner products / quotients yet): for that
+   part the oracle family farith_random and C07's fwitness_mul are tests, not theorems. *)
+Theorem float_mul_ints_only_shrink : forall x y s c c', prune_fmul x y s c = Some c' -> store_ile (fst c') (fst c).
+Proof. exact (fun x y s => prune_fmul_isafe x y s). Qed.
+Print Assumptions float_mul_ints_only_shrink.
+Theorem float_mul_guard_covers_zero : forall lo hi, fin lo -> fin hi -> (R_ lo <= 0)%R -> (0 <= R_ hi)%R ->
+  range_unsafe (VlF lo) (VlF hi) = true.
+Proof. exact range_unsafe_covers_zero_f. Qed.
+Print Assumptions float_mul_guard_covers_zero.
+Theorem float_mul_guard_int_exact : forall lo hi, range_unsafe (VlI lo) (VlI hi) = true <-> (lo <= 0 <= hi)%Z.
+Proof. exact range_unsafe_i_iff. Qed.
+Print Assumptions float_mul_guard_int_exact.
+Theorem float_mul_guard_away : forall lo hi, fin lo -> fin hi -> (R_ c_epsilon < R_ lo \/ R_ hi < R_ (fneg c_epsilon))%R ->
+  range_unsafe (VlF lo) (VlF hi) = false.
+Proof. exact range_unsafe_away_f. Qed.
+Print Assumptions float_mul_guard_away.
+Theorem float_mul_no_division_over_zero : forall w smin smax lo hi c, fin lo -> fin hi -> (R_ lo <= 0)%R -> (0 <= R_ hi)%R ->
+  mul_back w smin smax (VlF lo) (VlF hi) c = Some c.
+Proof. exact mul_back_inert_over_zero. Qed.
+Print Assumptions float_mul_no_division_over_zero.
+(* non-vacuity / closed witness: x in 5..20, y in [-5.0, 0.0], s in [-10.0, -1.0] (the demonstration of seeded change C07d) *)
+Example float_mul_witness : range_unsafe (fv_min (FVar 1) w_mul_store) (fv_max (FVar 1) w_mul_store) = true /\
+  match prune_fmul (FVar 0) (FVar 1) 2 (w_mul_store, []) with
+  | Some c' => var_min (fget (fst c') 0) = VlI 5 /\ var_max (fget (fst c') 0) = VlI 20
+  | None => False end.
+Proof. exact w_mul_guard. Qed.
 
 (* contracting: prune_fadd_g is prune_fadd with every setter call guarded by "a float variable receives a float bound inside
    Magn of its current interval" (it answers None otherwise).  Whenever the guarded run succeeds it IS the run of the model, and
